@@ -342,7 +342,7 @@ func runFaultSweep(t *testing.T, spec kernel.Spec, prop string, idx int) *kernel
 	if spec.Params["router"] != "" {
 		router = spec.Params["router"]
 	}
-	kinds := []string{world.FaultError, world.FaultTimeout, world.FaultTorn}
+	kinds := []string{world.FaultError, world.FaultTimeout, world.FaultTorn, world.FaultCanceled}
 	out := kernel.NewOutcome(spec)
 	out.StepIDs = []int{}
 	site := "router" + router + "/" + flow.name
@@ -447,7 +447,7 @@ func runFaultSweep(t *testing.T, spec kernel.Spec, prop string, idx int) *kernel
 			o.Fault(kind)
 			desc := fmt.Sprintf("%s router %s: call %d (%s) answered %s", flow.name, router, k, methodAt(w, r, k), kind)
 			o.Logf("%s -> %d", desc, statusOf(r))
-			judge(o, site+"/"+methodAt(w, r, k), k*3+kindIndex(kind), desc, r, redirect, flow.name == "introspect")
+			judge(o, site+"/"+methodAt(w, r, k), k*4+kindIndex(kind), desc, r, redirect, flow.name == "introspect")
 		})
 		return
 	}
@@ -466,7 +466,7 @@ func runFaultSweep(t *testing.T, spec kernel.Spec, prop string, idx int) *kernel
 	out.Logf("pilot %s router %s: %d storage calls: %v", flow.name, router, n, methods)
 	for k := 1; k <= n; k++ {
 		for ki, kind := range kinds {
-			id := k*3 + ki
+			id := k*4 + ki
 			if spec.KeepSet && !containsInt(spec.Keep, id) {
 				continue
 			}
@@ -513,8 +513,8 @@ func runFaultSweep(t *testing.T, spec kernel.Spec, prop string, idx int) *kernel
 				continue
 			}
 			seen[m] = true
-			for ki, kind := range []string{world.FaultError, world.FaultTimeout} {
-				id := 10000 + mi*2 + ki
+			for ki, kind := range []string{world.FaultError, world.FaultTimeout, world.FaultCanceled} {
+				id := 10000 + mi*3 + ki
 				mi2 := mi
 				_ = mi2
 				if spec.KeepSet && !containsInt(spec.Keep, id) {
@@ -535,7 +535,7 @@ func runFaultSweep(t *testing.T, spec kernel.Spec, prop string, idx int) *kernel
 			id := 20000 + j
 			set := map[int]string{}
 			for len(set) < min(2+j%2, n) {
-				set[1+seq.Int(n)] = []string{world.FaultError, world.FaultTimeout}[seq.Int(2)]
+				set[1+seq.Int(n)] = []string{world.FaultError, world.FaultTimeout, world.FaultCanceled}[seq.Int(3)]
 			}
 			if spec.KeepSet && !containsInt(spec.Keep, id) {
 				continue
@@ -582,6 +582,8 @@ func kindIndex(kind string) int {
 		return 0
 	case world.FaultTimeout:
 		return 1
+	case world.FaultCanceled:
+		return 3
 	}
 	return 2
 }
